@@ -886,6 +886,7 @@ def _families(tier):
            for plan in (0, 1) for a in A]
     d1 += [rule_direct(m, pp, sel, 0, A["A0"], acp) for m in ("D0", "D1", "D4") for pp in "us" for sel in ("port", "lag")
            for acp in ACP_MODES]
+    d1 += [rule_direct(m, pp, "port", 0, A["A2"], acp) for m in ("D0", "D1", "D4") for pp in "us" for acp in ("lses", "rses")]
     fam.append(("direct-1", T["d_single"], [[r] for r in _uniq(d1)]))
     if th:
         d1a = [rule_direct(m, pp, sel, plan, a) for m in ("D0", "D4") for pp in "us" for sel in ("port", "lag", "Rsvi")
